@@ -1,5 +1,39 @@
+"""Replay of C17 counterexamples; adds root-cause tags computed from the concrete program."""
+import ast
 from harness.bref_replay import replay_with
 
 
+def tags_of(files, op):
+    tags = set()
+    if op["api"] == "method_object":
+        src = files[op["path"]]
+        tree = ast.parse(src)
+        line = src.count("\n", 0, op["offset"]) + 1
+        parents = {}
+        for n in ast.walk(tree):
+            for c in ast.iter_child_nodes(n):
+                parents[c] = n
+        for fn in ast.walk(tree):
+            if isinstance(fn, (ast.FunctionDef, ast.AsyncFunctionDef)) and fn.lineno == line:
+                own = {a.arg for a in fn.args.posonlyargs + fn.args.args + fn.args.kwonlyargs} | {n.id for n in ast.walk(fn) if isinstance(n, ast.Name) and isinstance(n.ctx, ast.Store)}
+                reads = {n.id for n in ast.walk(fn) if isinstance(n, ast.Name) and isinstance(n.ctx, ast.Load)} - own
+                p = parents.get(fn)
+                while p is not None:
+                    if isinstance(p, (ast.FunctionDef, ast.AsyncFunctionDef)):
+                        outer = {a.arg for a in p.args.posonlyargs + p.args.args + p.args.kwonlyargs} | {n.id for n in ast.walk(p) if isinstance(n, ast.Name) and isinstance(n.ctx, ast.Store)}
+                        if reads & outer:
+                            tags.add("method-object-of-a-closure")
+                    p = parents.get(p)
+    return sorted(tags)
+
+
 def replay(f):
-    return replay_with(f, check_imports=True)
+    r = replay_with(f, check_imports=True)
+    if r.get("reproduced"):
+        try:
+            tags = tags_of(f["witness"]["files"], f["witness"]["op"])
+        except Exception:
+            tags = ["untagged"]
+        if tags:
+            r["signature"] = r["signature"].replace("|", "/") + "".join("|" + t for t in tags)
+    return r
